@@ -983,3 +983,289 @@ Proof.
     + unfold fuel_for. lia.
     + rewrite E. eauto.
 Qed.
+
+(* ------------------------------------------------------------------------------------- *)
+(* Instance creation                                                                       *)
+(* ------------------------------------------------------------------------------------- *)
+Lemma set_attr_In attrs n v m w : In (m, w) (set_attr attrs n v) -> (m, w) = (n, v) \/ In (m, w) attrs.
+Proof.
+  induction attrs as [|[a b] r IH]; cbn [set_attr].
+  - intros [E|[]]; auto.
+  - destruct (Nat.eqb a n).
+    + intros [E|I]; [auto|right; now right].
+    + destruct (Nat.ltb n a).
+      * intros [E|I]; auto.
+      * intros [E|I]; [right; now left|]. apply IH in I as [|]; [auto|right; now right].
+Qed.
+
+Lemma ext_upd h h2 x o : ext h h2 -> length h <= x -> ext h (upd h2 x o).
+Proof.
+  intros [L E] Hx. split; [now rewrite upd_length|]. intros l Hl. rewrite nth_error_upd_neq by lia. auto.
+Qed.
+
+Lemma ext_app h a : ext h (h ++ a).
+Proof. split; [rewrite app_length; lia|]. intros; now apply nth_error_app_l. Qed.
+
+Lemma kind_of_code_not_class z : kind_of_code z <> KClass.
+Proof. unfold kind_of_code. destruct z as [|p|p]; try discriminate. do 4 (destruct p; try discriminate). Qed.
+
+Lemma class_base_not_class co : class_base co <> KClass.
+Proof. unfold class_base. destruct (o_items co) as [|[z|b|l] r]; try discriminate; apply kind_of_code_not_class. Qed.
+
+Definition newval (lo hi : nat) (v : value) : Prop := nonref v \/ exists y, v = Ref y /\ lo < y < hi.
+
+(* objects allocated after location n refer to objects allocated after n, or to classes *)
+Definition subs_ok (n : nat) (h' : heap) : Prop :=
+  forall l o y, n < l -> nth_error h' l = Some o -> In (Ref y) (children o) -> n < y < length h' \/ class_at h' y.
+
+Lemma fold_left_none {A B} (f : option A -> B -> option A) (l : list B) :
+  (forall b, f None b = None) -> fold_left f l None = None.
+Proof. intro H; induction l; cbn; auto. now rewrite H. Qed.
+
+Theorem new_inst_spec : forall fuel h c items h' r,
+  new_inst fuel h c items = Some (h', r) ->
+  ext h h' /\
+  ((nonref r /\ h' = h) \/
+   (r = Ref (length h) /\ exists o, nth_error h' (length h) = Some o /\
+      o_cls o = c /\ (o_items o = items \/ o_items o = []) /\
+      (nonref c \/ exists cl, c = Ref cl /\ class_at h cl) /\
+      forall n v, In (n, v) (o_attrs o) -> newval (length h) (length h') v)) /\
+  subs_ok (length h) h'.
+Proof.
+  induction fuel as [|f IH]; intros h c items h' r H; [discriminate|].
+  cbn [new_inst] in H. destruct c as [z|b|cl]; [discriminate| |].
+  - (* builtin type *)
+    unfold btype_new in H.
+    assert (Hnone : forall l, length h < l -> forall a : obj, nth_error (h ++ [a]) l = None).
+    { intros l Hl a. apply nth_error_None. rewrite app_length; cbn; lia. }
+    destruct b as [|[|[|[|b]]]]; inversion H; subst; clear H;
+      try (split; [apply ext_refl|split; [left; split; [exact I|reflexivity]|]]; intros l o y Hl G; apply nth_error_lt in G; lia);
+      (split; [apply ext_app|split; [right; split; [reflexivity|]|intros l o y Hl G; now rewrite Hnone in G]]);
+      eexists; (split; [apply nth_error_app_here|]); cbn; repeat split; auto; intros ? ? [].
+  - destruct (nth_error h cl) as [co|] eqn:Gco; [|discriminate].
+    destruct (o_kind co) eqn:Kco; try discriminate.
+    set (n := length h) in *.
+    set (k := class_base co) in *.
+    set (self0 := mkobj k (Ref cl) items []) in *.
+    set (step := fun (acc : option (heap * list (nat * value))) (e : nat * value) =>
+            match acc with
+            | None => None
+            | Some (hh, at_) =>
+              if is_type hh (snd e) then
+                match new_inst f hh (snd e) [] with
+                | None => None
+                | Some (hh', r) => Some (hh', set_attr at_ (fst e) r)
+                end
+              else Some (hh, at_)
+            end) in *.
+    pose (J := fun (hh : heap) (at_ : list (nat * value)) =>
+                 ext (h ++ [self0]) hh /\ subs_ok n hh /\ forall m w, In (m, w) at_ -> newval n (length hh) w).
+    assert (Hfold : forall dct hh at_ hh2 at2, J hh at_ -> fold_left step dct (Some (hh, at_)) = Some (hh2, at2) -> J hh2 at2).
+    { induction dct as [|e dct IHd]; intros hh at_ hh2 at2 Jh Hf; cbn in Hf.
+      - inversion Hf; subst; auto.
+      - destruct (is_type hh (snd e)) eqn:Ty; [|eapply IHd; eauto].
+        destruct (new_inst f hh (snd e) []) as [[hh' r']|] eqn:En;
+          [|rewrite fold_left_none in Hf; [discriminate|reflexivity]].
+        eapply IHd; [|exact Hf].
+        destruct (IH _ _ _ _ _ En) as (E' & Hr & Sub').
+        destruct Jh as (E0 & Sub0 & At0).
+        assert (Ln : n < length hh).
+        { destruct E0 as [L _]. rewrite app_length in L; cbn in L. unfold n. lia. }
+        split; [eapply ext_trans; eauto|split].
+        + intros l o y Hl G Ic.
+          destruct (Nat.lt_trichotomy l (length hh)) as [Hlt|[->|Hgt]].
+          * destruct E' as [L' E']. rewrite E' in G by auto.
+            destruct (Sub0 _ _ _ Hl G Ic) as [?|C]; [left; lia|right; eapply class_at_ext; eauto; split; auto].
+          * destruct Hr as [[Nr ->]|(-> & o2 & G2 & Hc & Hi & Hcl & Hat)].
+            { apply nth_error_lt in G. lia. }
+            rewrite G in G2; inversion G2; subst o2. clear G2.
+            destruct Ic as [Ic|Ic].
+            -- rewrite Hc in Ic. destruct Hcl as [Nr|(cl2 & Ecl & Ccl)]; [rewrite Ic in Nr; contradiction|].
+               rewrite Ecl in Ic. inversion Ic; subst. right. eapply class_at_ext; eauto.
+            -- apply in_app_or in Ic as [Ic|Ic].
+               ++ destruct Hi as [Hi|Hi]; rewrite Hi in Ic; contradiction.
+               ++ apply in_map_iff in Ic as ([m w] & Ew & Iw). cbn in Ew; subst w.
+                  destruct (Hat _ _ Iw) as [Nr|(y2 & Ey & By)]; [contradiction|]. inversion Ey; subst. left. lia.
+          * destruct (Sub' _ _ _ Hgt G Ic) as [?|C]; [left; lia|now right].
+        + intros m w Iw. apply set_attr_In in Iw as [Eq|Iw].
+          * inversion Eq; subst. destruct Hr as [[Nr _]|(-> & o2 & G2 & _)]; [now left|].
+            right. eexists; split; [reflexivity|]. apply nth_error_lt in G2. lia.
+          * destruct (At0 _ _ Iw) as [Nr|(y & -> & By)]; [now left|right].
+            eexists; split; [reflexivity|]. destruct E' as [L' _]. lia. }
+    destruct (fold_left step (o_attrs co) (Some (h ++ [self0], []))) as [[h2 at_]|] eqn:Ef; [|discriminate].
+    inversion H; subst h' r. clear H.
+    assert (J0 : J (h ++ [self0]) []).
+    { split; [apply ext_refl|split; [|intros ? ? []]].
+      intros l o y Hl G. apply nth_error_lt in G. rewrite app_length in G; cbn in G. unfold n in Hl. lia. }
+    destruct (Hfold _ _ _ _ _ J0 Ef) as (E2 & Sub2 & At2).
+    assert (Ln : n < length h2).
+    { destruct E2 as [L _]. rewrite app_length in L; cbn in L. unfold n. lia. }
+    assert (Eh : ext h h2) by (eapply ext_trans; [apply ext_app|exact E2]).
+    assert (Self2 : nth_error h2 n = Some self0).
+    { destruct E2 as [_ E2]. rewrite E2; [apply nth_error_app_here|rewrite app_length; cbn; unfold n; lia]. }
+    split; [apply ext_upd; auto|split].
+    + right. split; [reflexivity|]. eexists. split; [apply nth_error_upd_eq; auto|].
+      cbn [o_cls o_items o_attrs]. split; [reflexivity|split; [now left|split]].
+      * right. exists cl. split; auto. exists co. auto.
+      * intros m w. rewrite upd_length. generalize k. intros k0 Iw.
+        destruct k0; try (eapply At2; eassumption).
+        apply set_attr_In in Iw as [Eq|Iw]; [inversion Eq; subst; now left|eapply At2; eassumption].
+    + intros l o y Hl G Ic. rewrite nth_error_upd_neq in G by lia. rewrite upd_length.
+      destruct (Sub2 _ _ _ Hl G Ic) as [?|(oc & Gc & Kc)]; [now left|right].
+      destruct (Nat.eq_dec y n) as [->|Ne].
+      * rewrite Self2 in Gc. inversion Gc; subst oc. cbn in Kc. now apply class_base_not_class in Kc.
+      * exists oc. split; auto. rewrite nth_error_upd_neq; auto.
+Qed.
+
+Lemma reach_subs n h' : subs_ok n h' -> forall v x, reach is_class h' v x ->
+  (forall y, v = Ref y -> n < y < length h' \/ class_at h' y) -> n < x < length h' \/ class_at h' x.
+Proof.
+  intros Sub v x R. induction R as [l|l o c x G S Ic R IH]; intros Hv; [auto|].
+  apply IH. intros y ->.
+  destruct (Hv l eq_refl) as [Hl|(oc & Gc & Kc)].
+  - apply (Sub l o y); [apply Hl|exact G|exact Ic].
+  - rewrite G in Gc; inversion Gc; subst oc. rewrite Kc in S. discriminate.
+Qed.
+
+(* every per-instance attribute of a new instance reaches only objects allocated for it, and classes *)
+Theorem fresh_attrs fuel h c items h' s o :
+  new_inst fuel h c items = Some (h', Ref s) -> nth_error h' s = Some o ->
+  s = length h /\ ext h h' /\
+  forall n v x, In (n, v) (o_attrs o) -> reach is_class h' v x -> length h < x < length h' \/ class_at h' x.
+Proof.
+  intros H G. destruct (new_inst_spec _ _ _ _ _ _ H) as (E & [[[] _]|(Er & o2 & G2 & _ & _ & _ & Hat)] & Sub).
+  inversion Er; subst s. rewrite G in G2; inversion G2; subst o2.
+  split; [reflexivity|split; [exact E|]].
+  intros n v x Iv R. eapply reach_subs; eauto.
+  intros y ->. destruct (Hat _ _ Iv) as [[]|(y2 & Ey & By)]. inversion Ey; subst. now left.
+Qed.
+
+(* so nothing an older object can reach (classes apart) is reachable from them *)
+Corollary fresh_attrs_two fuel h c items h' s o older :
+  closed h -> inside h older ->
+  new_inst fuel h c items = Some (h', Ref s) -> nth_error h' s = Some o ->
+  forall n v x, In (n, v) (o_attrs o) -> reach is_class h' v x -> reach is_class h' older x -> class_at h' x.
+Proof.
+  intros C Ho H G n v x Iv R Ro.
+  destruct (fresh_attrs _ _ _ _ _ _ _ H G) as (_ & E & Fr).
+  destruct (Fr _ _ _ Iv R) as [Hx|]; [|auto].
+  destruct (reach_closed _ _ _ _ _ C E Ho Ro) as [Lx _]. lia.
+Qed.
+
+(* ------------------------------------------------------------------------------------- *)
+(* Toolbox                                                                                 *)
+(* ------------------------------------------------------------------------------------- *)
+Lemma tb_get_del_same t a : tb_get (tb_del t a) a = None.
+Proof.
+  induction t as [|[b f] r IH]; cbn; auto.
+  destruct (Nat.eqb b a) eqn:E; cbn; auto.
+  rewrite Nat.eqb_sym, E. auto.
+Qed.
+
+Lemma tb_get_del_other t a b : a <> b -> tb_get (tb_del t a) b = tb_get t b.
+Proof.
+  intro Ne. induction t as [|[c f] r IH]; cbn; auto.
+  destruct (Nat.eqb c a) eqn:E; cbn.
+  - apply Nat.eqb_eq in E; subst c. destruct (Nat.eqb b a) eqn:E2; [apply Nat.eqb_eq in E2; congruence|auto].
+  - destruct (Nat.eqb b c); auto.
+Qed.
+
+Lemma alias_call t a f fa fk args kw :
+  tb_get (register t a f fa fk) a = Some (FPartial f fa fk) /\
+  call (FPartial f fa fk) args kw = call f (fa ++ args) (kw_merge fk kw).
+Proof.
+  split; [|reflexivity]. unfold register. cbn. now rewrite Nat.eqb_refl.
+Qed.
+
+Lemma register_other t a b f fa fk : a <> b -> tb_get (register t a f fa fk) b = tb_get t b.
+Proof.
+  intro Ne. unfold register. cbn. destruct (Nat.eqb b a) eqn:E; [apply Nat.eqb_eq in E; congruence|].
+  now apply tb_get_del_other.
+Qed.
+
+Lemma decorate_keeps t a f fa fk ds t' :
+  tb_get t a = Some (FPartial f fa fk) -> decorate t a ds = Some t' ->
+  tb_get t' a = Some (FPartial (fold_left (fun g d => FDec d g) ds f) fa fk) /\
+  (forall b, b <> a -> tb_get t' b = tb_get t b) /\
+  forall args kw, call (FPartial (fold_left (fun g d => FDec d g) ds f) fa fk) args kw =
+                  call (fold_left (fun g d => FDec d g) ds f) (fa ++ args) (kw_merge fk kw).
+Proof.
+  intros G D. unfold decorate in D. rewrite G in D. inversion D; subst t'.
+  split; [apply alias_call; exact nil|split; [|reflexivity]].
+  intros b Ne. apply register_other. congruence.
+Qed.
+
+Lemma unregister_spec t a t' :
+  unregister t a = Some t' -> tb_get t' a = None /\ forall b, b <> a -> tb_get t' b = tb_get t b.
+Proof.
+  unfold unregister. destruct (tb_get t a); [|discriminate]. intro H; inversion H; subst.
+  split; [apply tb_get_del_same|]. intros b Ne. apply tb_get_del_other. congruence.
+Qed.
+
+Lemma fold_dec_last ds d f : fold_left (fun g d => FDec d g) (ds ++ [d]) f = FDec d (fold_left (fun g d => FDec d g) ds f).
+Proof. now rewrite fold_left_app. Qed.
+
+Lemma picklable_alias ok f fa fk ds :
+  picklable ok (FPartial (fold_left (fun g d => FDec d g) ds f) fa fk) =
+  match ds with [] => picklable ok f | _ => false end.
+Proof.
+  destruct ds as [|d ds] using rev_ind; [reflexivity|].
+  rewrite fold_dec_last. cbn. destruct (ds ++ [d]) eqn:E; [destruct ds; discriminate|reflexivity].
+Qed.
+
+(* ------------------------------------------------------------------------------------- *)
+(* The decidable checks imply the hypotheses of the theorems                               *)
+(* ------------------------------------------------------------------------------------- *)
+Lemma filter_all {A} (f : A -> bool) l : forallb f l = true -> filter f l = l.
+Proof.
+  induction l as [|x r IH]; cbn; auto. intro H. apply andb_true_iff in H as [Hx Hr]. rewrite Hx. f_equal; auto.
+Qed.
+
+Lemma nonrefb_sound v : nonrefb v = true -> nonref v.
+Proof. destruct v; cbn; auto; discriminate. Qed.
+
+Lemma closedb_sound h : closedb h = true -> closed h.
+Proof.
+  unfold closedb. rewrite forallb_forall. intros H l o x G Ic.
+  specialize (H o (nth_error_In _ _ G)). rewrite forallb_forall in H. specialize (H _ Ic). cbn in H.
+  now apply Nat.ltb_lt.
+Qed.
+
+Lemma cls_okb_sound h c : cls_okb h c = true -> cls_ok deep_plan h c.
+Proof.
+  destruct c as [z|b|l]; cbn; [now left|now left|].
+  destruct (nth_error h l) as [o|] eqn:G; [|discriminate]. intro K. right. exists l. split; auto.
+  exists o. split; auto. now rewrite deep_atomic.
+Qed.
+
+Lemma deep_okb_sound h : deep_okb h = true -> deep_ok h.
+Proof.
+  unfold deep_okb. intro H. apply andb_true_iff in H as [Hc Hf]. split; [now apply closedb_sound|].
+  rewrite forallb_forall in Hf. intros l o G Na. specialize (Hf o (nth_error_In _ _ G)).
+  unfold obj_deep_okb in Hf. rewrite deep_atomic in Na.
+  destruct (o_kind o) eqn:K; cbn in Na; try discriminate; cbn [deep_plan p_attrs p_items p_cls sel_attrs];
+    try (split; [reflexivity|split; [discriminate|intros _; now apply cls_okb_sound]]).
+  - apply andb_true_iff in Hf as [Hf Hcl]. apply andb_true_iff in Hf as [Ha Hi].
+    split; [destruct (o_attrs o); [reflexivity|discriminate]|split; intros _; [|now apply cls_okb_sound]].
+    apply Forall_forall. intros x Ix. apply nonrefb_sound. rewrite forallb_forall in Hi. auto.
+  - apply andb_true_iff in Hf as [Hf Hcl]. apply andb_true_iff in Hf as [Ha Hi].
+    split; [now apply filter_all|split; intros _; [|now apply cls_okb_sound]].
+    apply Forall_forall. intros x Ix. apply nonrefb_sound. rewrite forallb_forall in Hi. auto.
+Qed.
+
+Lemma insideb_sound h v : insideb h v = true -> inside h v.
+Proof. intros H y ->. cbn in H. now apply Nat.ltb_lt. Qed.
+
+Theorem pickle_frame_mutate h v h' v' :
+  closed h -> inside h v -> pickle_roundtrip h v = Some (h', v') ->
+  forall x m k,
+    (reach no_stop h' v' x -> unfold no_stop k (mutate h' x m) v = unfold no_stop k h v) /\
+    (reach no_stop h' v x -> unfold no_stop k (mutate h' x m) v' = unfold no_stop k h v).
+Proof.
+  intros C Hv D x m k. destruct (pickle_roundtrip_spec _ _ _ _ C Hv D) as (E & C' & Hv' & Eq & Fr & Old).
+  destruct (mutate_upd h' x m) as [->|(o & ->)].
+  - split; intros _; [apply unfold_ext; auto|apply Eq].
+  - split; intros R.
+    + rewrite unfold_frame; [apply unfold_ext; auto|]. intro R2. apply Old in R2. apply Fr in R. lia.
+    + rewrite unfold_frame; [apply Eq|]. intro R2. apply Fr in R2. apply Old in R. lia.
+Qed.
